@@ -43,6 +43,10 @@ fn main() {
                 let hseed = seed.wrapping_mul(1_000_003).wrapping_add(h);
                 let mut g = if extreme { gen::WorldGen::new_extreme(hseed, backend, h) } else { gen::WorldGen::new(hseed, backend, h) };
                 g.reroute = matrix;
+                if pages && h % 2 == 1 {
+                    // the first tracked transfer gets sequence 0 (cursors and maps must treat key 0 like any other)
+                    g.w.chain.next_seq = 0;
+                }
                 events.push_str(&format!("== history {} seed {}\n", h, hseed));
                 wobs.push_str(&format!("== history {} seed {}\n", h, hseed));
                 if g.start() {
